@@ -35,7 +35,8 @@ RULE = (
     "packets in flight; clock steps from 0 to thousands of seconds. Oracle after every call. Non-trivial = history "
     "in which >=1 packet was reported ACKED and >=1 reported LOST; distinct = hash of the run-length-bucketed "
     "sequence of (call kind, outcome class). sim: bulk transfers in both directions under loss/dup/reorder/"
-    "blackouts, reno and cubic; non-trivial = run in which the congestion window limited sending at least once; "
+    "blackouts, reno and cubic (plus a few directed runs in which a duplicated server Handshake datagram arrives after "
+    "the client dropped its handshake keys); non-trivial = run in which the congestion window limited sending at least once; "
     "distinct = hash of the bucketed sequence of (step cause, budget outcome) per send cycle."
 )
 ASSUMPTIONS = [
@@ -79,11 +80,12 @@ def finalize(tier, merged):
 def plan(tier, seed):
     b = []
     if tier == "quick":
-        nhist_batches, per, nsim_batches, sper = 40, 300, 30, 2
+        nhist_batches, per, nsim_batches, sper, ndir = 30, 300, 24, 2, 2
     else:
-        nhist_batches, per, nsim_batches, sper = 400, 1000, 1000, 3
+        nhist_batches, per, nsim_batches, sper, ndir = 400, 1000, 1000, 3, 40
     # interleave so that a budget cut-off loses both kinds evenly
     sims = [{"gen": "sim", "seed": seed * 1000003 + i * sper, "count": sper, "tier": tier} for i in range(nsim_batches)]
+    sims += [{"gen": "sim_latehs", "seed": seed * 1000003 + i * 4, "count": 4} for i in range(ndir)]
     hists = [{"gen": "hist", "seed": seed * 1000003 + i * per, "count": per} for i in range(nhist_batches)]
     while sims or hists:
         for _ in range(3 if tier != "quick" else 1):
@@ -862,21 +864,44 @@ def sim_case(seed, tier):
     return opts, fp, script, {"profile": profile, "up": up, "down": down}
 
 
+def latehs_case(seed):
+    """Directed: one datagram of the server's first flight (a Handshake packet) is duplicated and the copies are
+    delayed independently by up to 1 s, so that one of them reaches the client after it dropped its handshake keys,
+    in the middle of an upload that keeps the window full. Everything else is delivered fairly."""
+    rng = random.Random("c08c/%d" % seed)
+    big = 4 * 1048576
+    opts = {
+        "cc": rng.choice(["reno", "cubic"]), "mds_client": rng.choice([1200, 1500]),
+        "max_data_client": big, "max_data_server": big, "max_stream_data_client": big, "max_stream_data_server": big,
+    }
+    fp = {"delay": rng.choice([0.03, 0.05, 0.08]), "adv_seconds": 0.0, "jitter": 1.0, "reorder": 1.0, "forced": {"s2c:%d" % rng.choice([1, 1, 0]): "dup3"}}
+    script = [{"t": 0.0, "side": "client", "op": "write", "sid": 0, "n": 1500000, "fin": True}]
+    return opts, fp, script, {"profile": "late-handshake-duplicate", "up": 1500000, "down": 0}
+
+
 def gen_sim(batch, res):
     for i in range(batch.get("count", 1)):
         sim_one(batch["seed"] + i, batch.get("tier", "quick"), res)
 
 
-def sim_one(seed, tier, res):
+def gen_sim_latehs(batch, res):
+    for i in range(batch.get("count", 1)):
+        sim_one(batch["seed"] + i, "quick", res, directed=True)
+
+
+def sim_one(seed, tier, res, directed=False):
     from ..monitors import RecoveryLedger
     from ..simnet import Fates, SimNet, run_sim
 
-    opts, fp, script, info = sim_case(seed, tier)
+    if directed:
+        opts, fp, script, info = latehs_case(seed)
+    else:
+        opts, fp, script, info = sim_case(seed, tier)
     WireBudget, Completion = _make_wire_budget()
     wb, ledger, comp = WireBudget(), RecoveryLedger(), Completion()
     ur = SeededUrandom(seed)
     ur.install()
-    case = {"gen": "sim", "seed": seed, "count": 1, "tier": tier}
+    case = {"gen": "sim_latehs" if directed else "sim", "seed": seed, "count": 1, "tier": tier}
     decided = True
     try:
         sim = SimNet(opts, Fates(seed, fp), script, [wb, ledger, comp], seed=seed, horizon=400.0, step_cap=250000)
@@ -901,6 +926,8 @@ def sim_one(seed, tier, res):
         res.violation("sim:" + sig, what, case, dict(wit, opts=opts, fates=fp, info=info))
     res.evaluations += 1
     res.count("sim_runs")
+    if directed:
+        res.count("sim_runs_directed_late_handshake_duplicate")
     if decided:
         res.count("sim_runs_decided")
     for k, v in wb.c.items():
@@ -916,13 +943,13 @@ def sim_one(seed, tier, res):
     if wb.c.get("wire_cycles_cwnd_limited", 0) > 0:
         res.nontrivial.add("b:" + h(opts["cc"], info["profile"], wb.signature()))
     res.sample(
-        {"gen": "sim", "seed": seed, "opts": opts, "fates": fp, "info": info, "steps": sim.steps, "t_end": round(sim.now, 3), "stopped": sim.stopped_reason,
+        {"gen": case["gen"], "seed": seed, "opts": opts, "fates": fp, "info": info, "steps": sim.steps, "t_end": round(sim.now, 3), "stopped": sim.stopped_reason,
          "complete": complete, "wire": dict(wb.c), "ledger_evaluations": ledger.evaluations, "fate_counts": dict(sim.fates.counts)},
         limit=1,
     )
 
 
-GENS = {"hist": gen_hist, "hist_one": gen_hist_one, "sim": gen_sim}
+GENS = {"hist": gen_hist, "hist_one": gen_hist_one, "sim": gen_sim, "sim_latehs": gen_sim_latehs}
 
 
 def run_batch(batch):
